@@ -166,6 +166,52 @@ vh::Outcome run_c16(const vh::Case& c, bool concurrent, bool locked_class) {
     return out;
 }
 
+// C16t: a trivially destructible element type (int) whose shared_ptr carries a custom deleter: releasing it runs user code too,
+// which must happen outside the container's lock and may re-enter the container
+vh::Outcome run_c16t(const vh::Case& c) {
+    reset_case_globals();
+    vh::Outcome out;
+    bool with_cb = c.cfg.size() > 1 && c.cfg[1] % 2 == 1;
+    int released = 0, added = 0; bool reentered = false;
+    out.res = vrt::run(c.sched, [&] {
+        std::function<void(std::shared_ptr<int>&)> cb;
+        if (with_cb) cb = [&](std::shared_ptr<int>&) { if (vrt::me().held != 0) vrt::fail("callback-under-lock", "the callback ran while the calling thread holds the container's lock"); };
+        std::unique_ptr<gc::DelayedDestructor<int>> dd(with_cb ? new gc::DelayedDestructor<int>(cb) : new gc::DelayedDestructor<int>());
+        bool alive = true;
+        auto make = [&](int reenter) {
+            added++;
+            return std::shared_ptr<int>(new int(added), [&, reenter](int* p) {
+                released++;
+                if (vrt::rt().cur && vrt::me().held != 0) vrt::fail("destructor-under-lock", "an element's deleter ran while the calling thread holds the container's lock");
+                delete p;
+                if (alive && reenter == 1) { reentered = true; (void)dd->size(); }
+                else if (alive && reenter == 2) { reentered = true; (void)dd->destroyObjects(); }
+            });
+        };
+        auto run_ops = [&](const std::vector<vh::Op>& ops) {
+            std::vector<std::shared_ptr<int>> mine;
+            for (auto& op : ops) {
+                switch (op.code % 5) {
+                    case 0: dd->addObjectsToBeDestroyed(make(op.a % 3)); break;
+                    case 1: { auto p = make(0); mine.push_back(p); dd->addObjectsToBeDestroyed(p); break; }
+                    case 2: if (!mine.empty()) mine.pop_back(); break;
+                    case 3: (void)dd->destroyObjects(); break;
+                    default: (void)dd->size(); break;
+                }
+            }
+        };
+        for (size_t i = 0; i < c.fibers.size(); ++i) if (!c.fibers[i].empty()) vrt::spawn([&, i] { run_ops(c.fibers[i]); });
+        vrt::join_all();
+        alive = false;
+        dd.reset();
+        if (released != added) vrt::fail("destroy-count", "objects handed to the DelayedDestructor were released " + std::to_string(released) + " times for " + std::to_string(added) + " objects");
+    });
+    if (reentered) out.labels.push_back("re-entered");
+    if (with_cb) out.labels.push_back("callback");
+    out.nontrivial = added > 0 && (reentered || out.res.blocked_events > 0);
+    return out;
+}
+
 // ================================================================================================ C17 SearchableObjectHolder
 struct Obj17 { int id; uint32_t canary = 0x0B1EC7; explicit Obj17(int i) : id(i) {} ~Obj17() { canary = 0; } };
 using SOH = gc::SearchableObjectHolder<Obj17, int>;
@@ -372,6 +418,9 @@ struct FaultyVal {
     bool operator==(const FaultyVal& o) const { return v == o.v; }
 };
 struct FaultWin { bool prev = false; FaultWin() { if (vrt::rt().cur) { prev = vrt::me().fault_window; vrt::me().fault_window = true; } } ~FaultWin() { if (vrt::rt().cur) vrt::me().fault_window = prev; } };
+// fills a chunk of the current stack with a non-zero pattern so that an indeterminate (default-initialised) value read afterwards is
+// visibly not X{}
+__attribute__((noinline)) void dirty_stack() { volatile unsigned char junk[2048]; for (size_t i = 0; i < sizeof junk; ++i) junk[i] = (unsigned char)(0xA5 + i); (void)junk[17]; }
 template<class X> struct Val;
 template<> struct Val<FaultyVal> { static FaultyVal make(int v) { return FaultyVal(v); } static int id(const FaultyVal& x) { return x.v; } };
 template<> struct Val<int> { static int make(int v) { return v; } static int dflt() { return 0; } static int id(const int& v) { return v; } };
@@ -514,6 +563,7 @@ vh::Outcome run_c18(const vh::Case& c, bool concurrent) {
                 if (!ok) vrt::fail(concurrent ? "not-linearizable" : "model-mismatch", "DelayedObjects results have no explanation against the per-key life-cycle model");
             }
             if (!pending.empty()) lbl_destroy_pending = true;
+            dirty_stack();
             dobj.reset();           // destruction fulfils what is still pending with X{}
             for (int k : pending) {
                 if (!futs.count(k)) vrt::fail("phantom-key", "a key is reported pending although no future was requested for it");
@@ -555,6 +605,10 @@ vh::Register r16s("C16s", s16(false, false), s16(false, true), [](const vh::Case
 vh::Register r16("C16", s16(true, false), s16(true, true), [](const vh::Case& c) { return d16(c, true); },
                  "generated concurrent adders, owners dropping references, destroyObjects and size callers with generated lock time-outs on the locked class; non-trivial = re-entry, concurrent destroyObjects, "
                  "a lock time-out or a surviving shared object occurred");
+vh::GenSpec s16t(bool th) { vh::GenSpec g = s16(true, th); g.nfibers = 3; return g; }
+vh::Register r16t("C16t", s16t(false), s16t(true), run_c16t,
+                  "DelayedDestructor<int> (trivially destructible element) whose shared_ptrs carry a custom deleter that checks that no modelled mutex is held and re-enters size()/destroyObjects(); "
+                  "non-trivial = a deleter re-entered or the lock was contended");
 vh::Register r20c("C20dd", s16(true, false, true), s16(true, true, true), [](const vh::Case& c) { return d16(c, true); },
                   "as C16 with a throwing pre-destruction callback (k-th invocation throws): destroyObjects must swallow it, destroy every selected object exactly once and leave the container usable");
 
